@@ -3,7 +3,7 @@
 # Exit 0 when no check raises an alarm on any of them.
 cd /verif
 fail=0
-for d in benign/B?_?; do
+for d in benign/B?_*; do
   out=$(./tools/benigntest.sh $d); echo "$out"
   echo "$out" | grep -q "all checks pass" || fail=1
 done
